@@ -9,6 +9,7 @@ import (
 	"encoding/json"
 	"fmt"
 	"math/rand"
+	"strings"
 	"sync"
 	"testing"
 	"time"
@@ -201,6 +202,51 @@ func TestC10(t *testing.T) {
 		res.Count("free-client")
 		c10Report(res, "client", cch.st, fmt.Sprintf("free-running client round %d", round), 1)
 		c10Report(res, "server", sch.st, fmt.Sprintf("free-running client round %d (server end)", round), 1)
+	}
+
+	// (4) channels handed to servers by server.Loop: connections that are served to the end, that are
+	// refused because the Assigner failed, whose transport breaks (error exit status), with context
+	// cancellation and accepter failures in between - each is closed exactly once
+	loopKinds := []string{"connect", "connect", "connectbroken", "connectfail", "clientclose", "cancel", "call", "acceptclosing", "acceptfail"}
+	for i := 0; i < pick(60, 600); i++ {
+		sc := &loopScenario{}
+		conns := 0
+		for j := 1 + rng.Intn(6); j > 0; j-- {
+			op := loopOp{Kind: loopKinds[rng.Intn(len(loopKinds))]}
+			switch {
+			case strings.HasPrefix(op.Kind, "connect"):
+				if conns >= 4 {
+					continue
+				}
+				conns++
+				op.Arg = rng.Intn(2)
+			case op.Kind == "clientclose" || op.Kind == "call":
+				if conns == 0 {
+					continue
+				}
+				op.Arg = rng.Intn(conns)
+			}
+			sc.Ops = append(sc.Ops, op)
+			if strings.HasPrefix(op.Kind, "accept") {
+				break
+			}
+		}
+		r := runLoopScenario(t, sc)
+		in := map[string]any{"loopscenario": sc}
+		res.Case("loop/"+fmt.Sprint(sc.Ops), conns >= 2, map[string]any{"ops": sc.Ops})
+		res.Count("loop")
+		for _, e := range r.Log {
+			f := strings.Fields(e)
+			if f[0] != "closes" {
+				continue
+			}
+			if f[2] != "1" {
+				res.Violatef("Close called "+f[2]+" times on a channel handed to a server by Loop", in, "connection %s; log: %s", f[1], shortLog(r.Log))
+			}
+			if !strings.HasSuffix(e, "problems=[]") {
+				res.Violatef("channel contract broken by a server started by Loop", in, "%s; log: %s", e, shortLog(r.Log))
+			}
+		}
 	}
 	res.Traces = res.Evaluations
 	res.Agreements = res.Evaluations - len(res.Violations)
